@@ -99,6 +99,8 @@ class _TabulationCutoff(object):
   def _check_positive(self, nr, dr, cutoff):
     if not nr is None and nr <= 0:
       raise ConfigParserException("'{nr}' in [Tabulation] section of potential definition cannot be 0 (zero) or negative.".format(**self._template_dict))
+    if not nr is None and nr < 2:
+      raise ConfigParserException("'{nr}' in [Tabulation] section of potential definition must be at least 2 (a table needs two rows to define its step).".format(**self._template_dict))
     if not dr is None and dr <= 0:
       raise ConfigParserException("'{dr}' in [Tabulation] section of potential definition cannot be 0 (zero) or negative.".format(**self._template_dict))
     if not cutoff is None and cutoff <= 0:
